@@ -83,9 +83,9 @@ def build_letters(tier="quick", dry=False):
     add("proximity", lambda: xs.proximity(_da(_targets())), core=True)
     add("proximity_md1.5", lambda: xs.proximity(_da(_targets()), max_distance=1.5), core=True)
     add("proximity_tv2", lambda: xs.proximity(_da(_targets()), target_values=[2]), core=True)
-    add("proximity_manhattan", lambda: xs.proximity(_da(_targets()), distance_metric="MANHATTAN"))
+    add("proximity_manhattan", lambda: xs.proximity(_da(_targets()), distance_metric="MANHATTAN"), quick=False)
     add("allocation", lambda: xs.allocation(_da(_targets())), core=True)
-    add("direction", lambda: xs.direction(_da(_targets())))
+    add("direction", lambda: xs.direction(_da(_targets())), quick=False)
     add("proximity_i4", lambda: xs.proximity(_da(_targets("i4"))), quick=False)
     add("proximity_dask_md1.5", lambda: _fin(xs.proximity(_da(_targets(), CH), max_distance=1.5)))
     add("direction_md2_tv3", lambda: xs.direction(_da(_targets()), max_distance=2.0, target_values=[3]), quick=False)
@@ -103,7 +103,7 @@ def build_letters(tier="quick", dry=False):
     add("convolution_3x5", lambda: convolution.convolution_2d(_da(_base()), k35 * 0.25), quick=False)
     # --- zonal -------------------------------------------------------------------------------------
     add("stats_default", lambda: zonal.stats(_da(_zones()), _da(_base())), core=True)
-    add("stats_custom", lambda: zonal.stats(_da(_zones()), _da(_base()), stats_funcs={"rng": lambda z: z.max() - z.min()}))
+    add("stats_custom", lambda: zonal.stats(_da(_zones()), _da(_base()), stats_funcs={"rng": lambda z: z.max() - z.min()}), quick=False)
     add("stats_ids_nodata", lambda: zonal.stats(_da(_zones()), _da(np.round(_base())), zone_ids=[3, 1], nodata_values=7))
     add("stats_dask", lambda: _fin(zonal.stats(_da(_zones(), CH), _da(_base(), CH))), quick=False)
     add("crosstab", lambda: zonal.crosstab(_da(_zones()), _da(_cats())))
@@ -115,7 +115,7 @@ def build_letters(tier="quick", dry=False):
     add("reclassify_3", lambda: classify.reclassify(_da(_base()), bins=[-5, 0, 20], new_values=[1, 2, 3]), core=True)
     add("reclassify_5", lambda: classify.reclassify(_da(_base()), bins=[-9, -5, 0, 5, 20], new_values=[1, 2, 3, 4, 5]))
     add("quantile_3", lambda: classify.quantile(_da(_base()), k=3), quick=False)
-    add("natural_breaks_3", lambda: classify.natural_breaks(_da(_base()), k=3))
+    add("natural_breaks_3", lambda: classify.natural_breaks(_da(_base()), k=3), quick=False)
     add("natural_breaks_5", lambda: classify.natural_breaks(_da(_base()), k=5), quick=False)
     add("equal_interval_3", lambda: classify.equal_interval(_da(_base()), k=3))
     add("equal_interval_5", lambda: classify.equal_interval(_da(_base()), k=5), quick=False)
@@ -129,12 +129,12 @@ def build_letters(tier="quick", dry=False):
     add("perlin_s6", lambda: xs.perlin(_da(np.zeros((5, 6))), seed=6))
     add("generate_terrain", lambda: xs.generate_terrain(_da(np.zeros((5, 6)))), quick=False)
     # --- pathfinding / viewshed --------------------------------------------------------------------
-    add("a_star_8", lambda: xs.a_star_search(_da(np.abs(_base()) + 1), (4.0, 0.0), (0.0, 2.5), barriers=[]))
+    add("a_star_8", lambda: xs.a_star_search(_da(np.abs(_base()) + 1), (4.0, 0.0), (0.0, 2.5), barriers=[]), quick=False)
     add("a_star_4_barriers", lambda: xs.a_star_search(_da(np.round(np.abs(_base()))), (4.0, 0.0), (0.0, 2.5), barriers=[3.0],
                                                        connectivity=4, snap_start=True, snap_goal=True), quick=False)
     add("viewshed", lambda: xs.viewshed(_da(np.abs(_base())), x=1.0, y=2.0, observer_elev=3), quick=False)
     # --- terrain ops: dtype / backend specialisations ----------------------------------------------
-    add("slope_f4", lambda: xs.slope(_da(_base(dtype="f4"))))
+    add("slope_f4", lambda: xs.slope(_da(_base(dtype="f4"))), quick=False)
     add("slope_i4", lambda: xs.slope(_da(_base(dtype="i4"))), core=True)
     add("slope_dask", lambda: _fin(xs.slope(_da(_base(), CH))), quick=False)
     add("aspect_f8", lambda: xs.aspect(_da(_base())), quick=False)
@@ -149,7 +149,7 @@ def build_letters(tier="quick", dry=False):
         return xr.Dataset({"a": _da(np.round(_base())), "b": _da(np.round(_base()[::-1]).copy()),
                            "c": _da(np.round(_base()[:, ::-1]).copy())})
     add("local_cell_stats", lambda: local.cell_stats(_ds(), func="max"), quick=False)
-    add("local_combine", lambda: local.combine(_ds()))
+    add("local_combine", lambda: local.combine(_ds()), quick=False)
     add("local_rank", lambda: local.rank(xr.merge([_ds(), (_da(_zones() % 3 + 1)).rename("ref")]), "ref"), quick=False)
 
     if tier == "quick":
